@@ -16,7 +16,8 @@ RULE = ("API table (~150 entry points with a variable-length or pointer argument
         "entry points probed at MAX-1, MAX, MAX+1, MAX+2, MAX+64, 2*MAX, 2^47 with a one-page buffer followed by PROT_NONE: beyond MAX "
         "must be refused (misuse handler / error) before any access; AES-256-GCM (which wipes the output before returning -1) on a "
         "64 GiB virtual buffer aliased onto 8 MiB (native build). builds: clang ASan+UBSan (alignment group excluded, see DESIGN) on "
-        "native x {all, -avx2, none} and the generic build. Oracle: no sanitizer report, no fault.")
+        "native x {all, -avx2, none} and the generic build. Oracle: no sanitizer report, no fault."
+        " Default random source without getrandom(): every script of <= 3 short / interrupted read() answers x 10 request sizes on the /dev/urandom fallback (ASan build, canaries).")
 
 META = {
     "engine": "E-shape", "level": "exploration",
@@ -45,9 +46,13 @@ def main(tier):
     build.link_harness("native", exe, [os.path.join(common.VERIF, "harness", "c12_limits.c")])
     lim = common.run([exe], env={"VERIF_TIER": tier}, label="c12-limits", timeout=3600)
 
+    exe2 = os.path.join(build.build("asan"), "h_c12sysrandom")
+    build.link_harness("asan", exe2, [os.path.join(common.VERIF, "harness", "c12_sysrandom.c")], wraps=("getrandom", "read"))
+    sysr = common.run([exe2], env={"VERIF_TIER": tier}, label="c12-sysrandom-fallback", timeout=1800)
+
     def extra(r):
-        r.merge(lim)
-        return {"size_limit_probes": lim.stat("evaluations")}
+        r.merge(lim); r.merge(sysr)
+        return {"size_limit_probes": lim.stat("evaluations"), "sysrandom_fallback_read_scripts": sysr.stat("evaluations")}
     common.simple_check("C12", tier, "exploration", ["c12.c"], ["asan", "asan_generic"], RULE,
                         ["sanitizer coverage limits as stated in the level note", "contents from the pattern alphabet",
                          "decrypt-direction entry points authenticate (read) their whole input before refusing: their over-limit probes only judge an outright success"],
